@@ -473,8 +473,47 @@ fn huge_one<T: Elem, N: ArrayLength>(tag: i128, ty: i128, l: usize, mutable: boo
     }
 }
 
+/// Slices of a ZERO-SIZED element type can be longer than isize::MAX elements (their byte size is 0): the
+/// chunk count is still L / N and the remainder L mod N.  Direct oracle (case kind 8: [8, N, L, mutable]).
+#[cfg(target_pointer_width = "64")]
+fn huge_len<N: ArrayLength>(l: usize, mutable: bool) {
+    emit_case(&[8, N::USIZE as i128, l as i128, mutable as i128]);
+    let p = std::ptr::NonNull::<()>::dangling().as_ptr();
+    let r = catch(move || {
+        if mutable {
+            let s: &mut [()] = unsafe { std::slice::from_raw_parts_mut(p, l) };
+            let (c, r) = GenericArray::<(), N>::chunks_from_slice_mut(s);
+            (c.len(), r.len())
+        } else {
+            let s: &[()] = unsafe { std::slice::from_raw_parts(p, l) };
+            let (c, r) = GenericArray::<(), N>::chunks_from_slice(s);
+            (c.len(), r.len())
+        }
+    });
+    match r {
+        Ok((nc, nr)) => {
+            emit_obs(&[0, nc as i128, nr as i128]);
+            if nc != l / N::USIZE || nr != l % N::USIZE {
+                emit_oracle(&format!("N = {}, a slice of {} zero-sized elements: {} chunks and a remainder of {} elements", N::USIZE, l, nc, nr));
+            }
+        }
+        Err(m) => {
+            emit_obs(&[1]);
+            emit_oracle(&format!("N = {}, a slice of {} zero-sized elements: panicked ({})", N::USIZE, l, m));
+        }
+    }
+}
+
 #[cfg(target_pointer_width = "64")]
 fn huge_all() {
+    for l in [isize::MAX as usize, isize::MAX as usize + 1, isize::MAX as usize + 6, usize::MAX - 1, usize::MAX, (1usize << 32) + 1] {
+        for mutable in [false, true] {
+            dist("huge_L");
+            huge_len::<U1>(l, mutable);
+            huge_len::<U3>(l, mutable);
+            huge_len::<U1024>(l, mutable);
+        }
+    }
     type A = U4294967296; // 2^32
     type B = U8589934592; // 2^33
     type C = Sum<U4294967296, U3>; // 2^32 + 3
